@@ -10,8 +10,10 @@ open SSVerif.Align
 #print axioms C04_alignStep_tokens_local_partial
 #print axioms C04_alignStep_inv_start
 #print axioms C04_alignStep_WFTokens
+#print axioms C04_alignStep_never_renormalises
 #print axioms C04_model_run_wfTokens
 #print axioms C04_model_run_hierarchy
+#print axioms C04_alignScore_is_best_path
 #print axioms C04_word_score_is_acoustic_part_partial
 #print axioms C04_model_run_scores_optimal_partial
 #print axioms C04_word_score_is_best_segment
